@@ -1,6 +1,7 @@
 (* C17 - Generated pkg-config files give consumers the declared flags and requirements.
    Only statements; proofs live in theories/Misc. *)
 From BFG Require Import Base.Chars Shell.PosixQuote Shell.Sh Misc.Versions Misc.VersionsProofs Misc.PcFile Misc.PcFileProofs.
+From BFG Require Import Graph.LinkOrder Graph.LinkOrderProofs Misc.PcInfo Misc.PcInfoProofs.
 From Coq Require Import String.
 
 (* A total preorder of versions: [veqb] is identity of the printed form, [leb] the version order
@@ -100,6 +101,108 @@ Theorem C17_fields_rt_refuted :
     = Some [STR "-DW=/u"].
 Proof. exact (conj fields_rt_hash_refuted fields_rt_dollar_brace_refuted). Qed.
 Print Assumptions C17_fields_rt_refuted.
+
+(* ---- PkgConfigInfo: which fields are auto-filled, and what the three flag fields hold ---- *)
+(* [a]: the arguments of one pkg_config() call, [ex]: install.explicit when the package is written.
+   A list field given explicitly - the EMPTY list included - is stored as given (duplicates dropped) and is
+   never auto-filled; libs_private is never auto-filled; a field left None is, with auto_fill, exactly the
+   installed header directories / libraries, and stays None (finalize: empty) without auto_fill. *)
+Theorem C17_autofill_respects_explicit : forall pname pv ex a,
+  let f := final_info pname pv ex a in
+  (forall l, i_includes a = Some l -> i_includes f = Some (dedup_first l)) /\
+  (forall l, i_libs a = Some l -> i_libs f = Some (dedup_first l)) /\
+  i_libs_private f = option_map dedup_first (i_libs_private a) /\
+  (i_includes a = None -> i_includes f = if i_auto a then Some (dedup_first (ids_of KHeader ex)) else None) /\
+  (i_libs a = None -> i_libs f = if i_auto a then Some (dedup_first (ids_of KLib ex)) else None) /\
+  (forall h, In h (dedup_first (ids_of KHeader ex)) <-> In (KHeader, h) ex) /\
+  (forall l, In l (dedup_first (ids_of KLib ex)) <-> In (KLib, l) ex) /\
+  (forall l x, In x (dedup_first l) <-> In x l).
+Proof. exact autofill_respects_explicit. Qed.
+Print Assumptions C17_autofill_respects_explicit.
+
+(* install.explicit after the script: exactly the arguments of install() and the headers / libraries named in
+   some pkg_config() call; filling a field from it installs nothing new *)
+Theorem C17_installed_set : forall acts x,
+  In x (explicit_after acts) <-> exists a, In a acts /\ In x (installs_of a).
+Proof. exact explicit_after_In. Qed.
+Print Assumptions C17_installed_set.
+
+Theorem C17_autofill_installs_nothing : forall k ex,
+  inst_extend ex (map (pair k) (dedup_first (ids_of k ex))) = ex.
+Proof. exact autofill_installs_noop. Qed.
+Print Assumptions C17_autofill_installs_nothing.
+
+(* one written package per pkg_config() call, in order; an auto_fill package sees install.explicit as it is
+   after the whole script *)
+Theorem C17_written_packages : forall pname pv acts,
+  Forall2 (fun p f => exists ex', f = final_info pname pv ex' p /\ (i_auto p = true -> ex' = explicit_after acts))
+          (pkgs_of acts) (written pname pv acts).
+Proof. exact written_spec. Qed.
+Print Assumptions C17_written_packages.
+
+(* finalize: includes, options, libs, link options are the (filled) fields unchanged; Libs and Libs.private
+   together hold exactly the libraries reachable from libs + libs_private through dependencies of static
+   (forwarding) libraries; a library of Libs.private was declared private or is not in Libs; the private link
+   options are the declared ones and those forwarded by reachable static libraries *)
+Theorem C17_declared_flags : forall deps fwd lopts fuel i d,
+  finalize deps fwd lopts fuel i = Some (Some d) ->
+  let user := or_nil (i_libs i) ++ or_nil (i_libs_private i) in
+  d_includes d = or_nil (i_includes i) /\ d_options d = i_options i /\
+  d_libs d = or_nil (i_libs i) /\ d_lopts d = i_lopts i /\
+  NoDup (d_libs_private d) /\
+  (forall x, In x (d_libs d ++ d_libs_private d) <-> reach deps fwd user x) /\
+  (forall x, In x (d_libs_private d) -> In x (or_nil (i_libs_private i)) \/ ~ In x (d_libs d)) /\
+  (forall o, In o (d_lopts_private d) <->
+             In o (i_lopts_private i) \/ exists x, reach deps fwd user x /\ fwd x = true /\ In o (lopts x)).
+Proof. exact finalize_spec. Qed.
+Print Assumptions C17_declared_flags.
+
+(* the words of Cflags: -I<dir> for exactly the directories of the includes, and the options; of Libs and
+   Libs.private: the link options, -L<dir> for exactly the directories of the libraries, -l<name> per library *)
+Theorem C17_declared_words : forall incdir libdir libname dirfrag,
+  (forall incs opts w, In w (cflags_words incdir dirfrag incs opts) <->
+     (exists h, In h incs /\ w = inc_flag dirfrag (incdir h)) \/ (exists o, In o opts /\ w = str_flag o)) /\
+  (forall libs lo w, In w (link_words libdir libname dirfrag libs lo) <->
+     (exists o, In o lo /\ w = str_flag o) \/
+     (exists l, In l libs /\ w = libdir_flag dirfrag (libdir l)) \/
+     (exists l, In l libs /\ w = lib_flag libname l)).
+Proof. intros. split; intros; [apply cflags_words_In | apply link_words_In]. Qed.
+Print Assumptions C17_declared_words.
+
+(* for a package without include directories the written Cflags field is read back by the pkgconf reader model
+   as exactly the declared options (guard as in C17_fields_rt_partial) *)
+Theorem C17_declared_options_rt : forall uw vars incdir dirfrag d,
+  d_includes d = [] -> forallb nonempty (d_options d) = true ->
+  pc_clean (write_each uw true [c_sp] (pc_cflags incdir dirfrag d)) = true ->
+  pc_argv (pc_subst vars (pc_comment false (write_each uw true [c_sp] (pc_cflags incdir dirfrag d))))
+  = Some (d_options d).
+Proof. exact declared_options_rt. Qed.
+Print Assumptions C17_declared_options_rt.
+
+(* non-vacuity: install(h0, l0, l1); pkg_config(auto_fill, libs=[]); pkg_config(auto_fill, includes=[]);
+   pkg_config(auto_fill); pkg_config(libs=[l2]) - the explicit empty lists stay empty, None is filled with
+   everything installed, including l2 which the last call installs *)
+Definition ex_info (auto : bool) (incs libs : option (list N)) : info :=
+  {| i_auto := auto; i_name := Some (STR "p"); i_version := None; i_includes := incs; i_libs := libs;
+     i_libs_private := None; i_options := []; i_lopts := []; i_lopts_private := [] |}.
+Example C17_autofill_ex :
+  map (fun f => (i_includes f, i_libs f))
+      (written (STR "proj") None
+         [AInstall [(KHeader, 0%N); (KLib, 0%N); (KLib, 1%N)];
+          APkg (ex_info true None (Some [])); APkg (ex_info true (Some []) None);
+          APkg (ex_info true None None); APkg (ex_info false None (Some [2%N]))])
+  = [(Some [0%N], Some []); (Some [], Some [0%N; 1%N; 2%N]); (Some [0%N], Some [0%N; 1%N; 2%N]);
+     (None, Some [2%N])].
+Proof. vm_compute. reflexivity. Qed.
+
+(* static 1 -> {0}; libs = [1]: Libs holds 1, Libs.private the forwarded 0 and its link option *)
+Example C17_finalize_ex :
+  option_map (option_map (fun d => (d_libs d, d_libs_private d, d_lopts_private d)))
+    (finalize (fun x => if N.eqb x 1 then [0%N] else []) (fun _ => true)
+              (fun x => if N.eqb x 0 then [STR "-pthread"] else []) 5
+              (final_info (STR "proj") None [] (ex_info false None (Some [1%N]))))
+  = Some (Some ([1%N], [0%N], [STR "-pthread"])).
+Proof. vm_compute. reflexivity. Qed.
 
 (* non-vacuity *)
 Example C17_fields_ex :
